@@ -21,6 +21,7 @@ type suite struct {
 var suites = []suite{
 	{"tls-table", suiteTLSTable},
 	{"tls-handshake", suiteTLSHandshake},
+	{"tls-two-hosts", suiteTLSTwoHosts},
 	{"password-authenticator", suitePasswordAuthenticator},
 }
 
